@@ -274,6 +274,15 @@ func (w *World) Func(pkgKey, name string) *types.Func {
 	panic(undecided{fmt.Sprintf("func %s.%s not found", pkgKey, name)})
 }
 
+// tryFunc is Func without the panic.
+func (w *World) tryFunc(pkgKey, name string) *types.Func {
+	p := w.Pkg(pkgKey)
+	if o, ok := scopeLookup(p.Types.Scope(), name).(*types.Func); ok {
+		return o
+	}
+	return nil
+}
+
 func (w *World) Method(pkgKey, typ, name string) *types.Func {
 	p := w.Pkg(pkgKey)
 	tn, ok := scopeLookup(p.Types.Scope(), typ).(*types.TypeName)
